@@ -74,8 +74,21 @@ def catalogue():
         "map-to-infinite-lists": ("same", 0, lambda E, H, c, L, mk: E.vy_map(L, lambda x: mk(), c), "any", False, False),
         "flatten": ("same", 0, lambda E, H, c, L, mk: E.deep_flatten(L, c), "any", True, False),
         "constant-zero": ("same", 0, lambda E, H, c, L, mk: E.multiply(L, 0, c), "scalar", True, False),
+        # boundary parameters: windows / chunks of ONE item, a slice from offset 0 and from a NEGATIVE offset (of an
+        # endless list that is nothing: taking items from it must still terminate, with fewer items), every 1st item
+        "windows-1": ("window", 1, lambda E, H, c, L, mk: E.overlapping_groups(L, 1, c), "any", False, "same"),
+        "chunks-1": ("chunk", 1, lambda E, H, c, L, mk: E.wrap(L, 1, c), "any", False, "same"),
+        "slice-from-0": ("drop", 0, lambda E, H, c, L, mk: E.slice_from(L, 0, c), "any", "same", "same"),
+        "slice-from-minus-2": ("same", 0, lambda E, H, c, L, mk: E.slice_from(L, -2, c), "any", "same", "same"),
+        "every-1st": ("every", 1, lambda E, H, c, L, mk: E.index(L, [None, None, 1], c), "any", "same", "same"),
+        # a TEXT scalar on the right of a vectorising dyad (formatting each item)
+        "modulo-text-right": ("same", 0, lambda E, H, c, L, mk: E.modulo(L, "<%>", c), "any", False, "same"),
+        "add-text-right": ("same", 0, lambda E, H, c, L, mk: E.add(L, "!", c), "any", False, "same"),
     }
     return C
+
+
+SHORT_OK = {"slice-from-minus-2"}
 
 
 def admissible(names):
@@ -119,6 +132,7 @@ def observe(case):
         return LazyList(source(False), isinf=True)
 
     ev = []
+    short = False
     pipe = [{"kind": C[nm][0], "p": C[nm][1]} for nm in names]
     try:
         L = LazyList(source(True), isinf=True)
@@ -131,6 +145,12 @@ def observe(case):
     for k in (0, 1, 5):
         try:
             got = common.with_alarm(lambda _: list(E.index(R, [0, k], ctx)), None, 5)
+            if len(got) < k and any(nm in SHORT_OK for nm in names):
+                # the result is legitimately shorter (nothing before the start of an endless list): taking k
+                # items terminated, which is what is claimed; there is nothing to index afterwards
+                ev.append({"e": "out", "j": max(len(got) - 1, 0), "pulled": count[0], "what": ""})
+                short = True
+                continue
             if len(got) != k:
                 ev.append({"e": "raise", "j": k, "pulled": count[0], "what": f"first-{k}-items-gave-{len(got)}"})
                 return {"pipe": pipe, "names": names, "ev": ev}
@@ -141,7 +161,7 @@ def observe(case):
         except Exception as e:  # noqa: BLE001
             ev.append({"e": "raise", "j": k, "pulled": count[0], "what": "take-" + type(e).__name__})
             return {"pipe": pipe, "names": names, "ev": ev}
-    for j in range(n):
+    for j in range(0 if short else n):
         try:
             common.with_alarm(lambda _: R[j], None, 5)
             ev.append({"e": "out", "j": j, "pulled": count[0], "what": ""})
